@@ -29,7 +29,8 @@ def _bad_key_sources(prog, f, argno, depth):
     """call sites (transitively through parameters) that pass something else than SyntaxNodeRef.index / Node::id() for parameter argno of f"""
     cg = prog.callgraph()
     bad = []
-    callers = list(cg.callers(f.id))
+    # an absorbed helper's own body is not a separate caller: its calls live on inside the functions it was spliced into
+    callers = [c for c in cg.callers(f.id) if c in prog.fns and not prog.is_absorbed(prog.fns[c])]
     if not callers:
         bad.append((f.id, f.loc(), "no call site found for the parameter"))
     for caller in callers:
@@ -178,6 +179,14 @@ def walk_features(prog, f, mode):
                 cf = prog.fns.get(cl[2])
                 if cf is not None and re.match(r"^Variables::get\(&\*arg:\w+, &\*\*upvar:_ref__self\.name\)$", canon(Tracer(cf.body).local(0))):
                     by_name = True
+                elif cf is not None:
+                    # the lookup sits in a helper that receives the name as a parameter: what the closure captured there
+                    from ..lib.trace import upvar_origin
+                    r0 = strip(Tracer(cf.body).local(0))
+                    if r0[0] == "call" and re.search(r"Variables(<[^>]*>)?>?::get$", r0[1] or "") and len(r0[3]) == 2:
+                        org = upvar_origin(prog, cf, r0[3][1])
+                        if org is not None and re.search(r"arg:self\.name$", canon(strip(org))):
+                            by_name = True
         if by_name:
             feats["W3"] = "ancestor lookup = scopes[id].get(name)"
         else:
